@@ -29,6 +29,12 @@ A Kani unit is contracts/<unit>/kani.toml (+ kani_harness.rs, optional spec.rs, 
     cex_harness = "cmp_k_overlaps_cex"       # optional plain twin used only to extract concrete values
     replay_template = '''...{q}...{unit_dir}...'''   # body of  #[cfg(test)] mod verif_replay { .. }
 
+contracts/<unit>/trusted.txt lists (one per line, text after the file:line prefix) every assumption-like
+line the scan finds in the unit's *.rs files and contract attributes (kani::assume, kani::requires,
+stubs, kani::unwind, ...); a scanned line that is not listed there => undecided.
+spec.rs (optional) holds the plain-Rust statement shared by the harness (`include!("spec.rs")`) and
+the replay templates (`include!("{unit_dir}/spec.rs")`).
+
 Verdicts: a Kani check with status FAILURE (other than unwinding / unsupported-construct
 checks) in a selected harness is `failed` (class falsified).  Everything else that is not a
 clean success — timeout, OOM, build error, lost/ambiguous anchor, add-only guard, reach-cover
@@ -781,7 +787,7 @@ def run(prop, units, scratch, tier, repo):
             r['discharged'] += c['checks'] - len(c['failures'])
         if pr and len(r['samples']) < 6:
             user = [k for k in pr['checks'] if ('contracts/' in k['location'] or 'closure' in k['id']) and '.cover.' not in k['id']
-                    and not re.search(r'overflow|dereference|alloc|recursive', k['description'])]
+                    and not re.search(r'overflow|dereference|alloc|recursive|unreachable code|Only a single top-level|Check that|placeholder|pointer|^assertion failed', k['description'])]
             for k in user[:2]:
                 r['samples'].append('%s/%s: %s' % (u['name'], h['label'], re.sub(r'\s+', ' ', k['description'])[:160]))
         if c['status'] == 'ok':
